@@ -814,7 +814,16 @@ func (st *c02State) checkOne(dev, devOwner *Account, chainID string, epoch, heig
 				qa = append(qa, e.Address)
 			}
 		}
-		r.Check(qerr == nil && strings.Join(qa, ",") == strings.Join(addrs, ",") && qres.CurrentEpoch == epoch, "pairing-query-differs", "GetPairing-vs-GetPairingForClient",
+		// compared as sets: with Mixed requirements the ORDER of the list depends on Go's map iteration
+		// order inside the slot grouping (two computations in one process differ), the membership does not;
+		// the statement is about membership (C01 compares membership across replicas as well)
+		qs, as := append([]string{}, qa...), append([]string{}, addrs...)
+		sort.Strings(qs)
+		sort.Strings(as)
+		if strings.Join(qa, ",") != strings.Join(addrs, ",") && strings.Join(qs, ",") == strings.Join(as, ",") {
+			r.Probe("c02_pairing_list_order_differs_between_two_computations")
+		}
+		r.Check(qerr == nil && strings.Join(qs, ",") == strings.Join(as, ",") && qres.CurrentEpoch == epoch, "pairing-query-differs", "GetPairing-vs-GetPairingForClient",
 			"%s: GetPairing query err=%v list=[%s] differs from GetPairingForClient [%s] (epoch %d)", tag, qerr, strings.Join(qa, ","), strings.Join(addrs, ","), epoch)
 	}
 
